@@ -13,7 +13,7 @@ STACK_API = ['path:stack::PushStack::*']
 MANIP = ['DUP', 'DDUP', 'POP', 'SWAP', 'ROT', 'YANK', 'YANKDUP', 'SHOVE', 'FLUSH', 'STACKDEPTH']
 STACK_TYPES = ['BOOLEAN', 'INTEGER', 'FLOAT', 'NAME', 'CODE', 'EXEC', 'BOOLVECTOR', 'INTVECTOR', 'FLOATVECTOR']
 C05_NAMES = ['%s.%s' % (t, m) for t in STACK_TYPES for m in MANIP]
-VEC_EXTERNAL_NOTE = ('FLOATVECTOR.SUM / MEAN (f32 iter().sum(): the additive identity and order are std\'s) stay outside Verus: their bodies are external (listed under out_of_reach)')
+VEC_EXTERNAL_NOTE = ('every registered vector instruction has a verified body; the iterator adapters, sorts and the f32 sum among them are read through the rewrites R9 / R13 / R14, whose assumptions about std are listed')
 
 PROPS = {
     'C16': dict(
@@ -74,7 +74,7 @@ PROPS = {
         label_re=r'^C(09|05|07|06|13|10)',
         explanation='element-wise operations verified (loop invariant) against overlay(second, top, offset, op) of the README; GET/SET clamp; ONES/ZEROS/LENGTH/APPEND/EMPTY/FROMINT/EQUAL/ROTATE/CONTAINS/SET*INSERT/NOT rows; '
                     'through the R9 desugaring of slice-iterator adapters: BOOLVECTOR.COUNT = number of TRUE elements, INTVECTOR.SUM = the wrapping sum, INTVECTOR.MEAN = that sum / length (f32), '
-                    'INTVECTOR.BOOLINDEX = the ascending indices of the TRUE elements, FLOATVECTOR.*SCALAR = element-wise product, INTVECTOR.REMOVE = the other elements in order (Vec::retain), INTVECTOR.SORT*ASC / DESC = an ascending / descending permutation (multiset equal) of the top vector (assumed contract of slice::sort + the i32 axiom), BOOLVECTOR / FLOATVECTOR.SORT*ASC / DESC = a permutation ordered by the comparator (R13: the two sort_by call forms are wrappers with assumed contracts; false before true; f32: the uninterpreted total preorder of total_cmp), BoolVector::from_int_array (no longer trusted); registry binding is part of each unit',
+                    'INTVECTOR.BOOLINDEX = the ascending indices of the TRUE elements, FLOATVECTOR.*SCALAR = element-wise product, INTVECTOR.REMOVE = the other elements in order (Vec::retain), FLOATVECTOR.SUM = the left-to-right f32 sum from std\'s empty sum (R14; cross-checked bit for bit by the bounded Kani harness b_c09_float_vector_sum), FLOATVECTOR.MEAN = that sum / length, INTVECTOR.SORT*ASC / DESC = an ascending / descending permutation (multiset equal) of the top vector (assumed contract of slice::sort + the i32 axiom), BOOLVECTOR / FLOATVECTOR.SORT*ASC / DESC = a permutation ordered by the comparator (R13: the two sort_by call forms are wrappers with assumed contracts; false before true; f32: the uninterpreted total preorder of total_cmp), BoolVector::from_int_array (no longer trusted); registry binding is part of each unit',
         not_decided=[VEC_EXTERNAL_NOTE, 'float element values are uninterpreted (which operation on which elements is proved)',
                      'the real std sort / retain bodies did not finish in CBMC within 400 s even for length <= 2, so the R9 / T-std assumptions about them have no bounded cross-check'],
         thorough=True,
